@@ -60,7 +60,7 @@ func runGroup(t *testing.T, name string, quick, thorough int, weight func(ep *EP
 }
 
 func TestPropX509(t *testing.T) {
-	runGroup(t, "x509", 8000, 62400, func(ep *EP) int {
+	runGroup(t, "x509", 16000, 187200, func(ep *EP) int {
 		switch ep.Name {
 		case "x509.ParseCertificate":
 			return 8
@@ -71,12 +71,12 @@ func TestPropX509(t *testing.T) {
 	}, "x509")
 }
 
-func TestPropASN1(t *testing.T) { runGroup(t, "asn1", 8000, 60000, nil, "asn1") }
+func TestPropASN1(t *testing.T) { runGroup(t, "asn1", 16000, 180000, nil, "asn1") }
 
-func TestPropCryptobyte(t *testing.T) { runGroup(t, "cryptobyte", 4500, 36000, nil, "cryptobyte") }
+func TestPropCryptobyte(t *testing.T) { runGroup(t, "cryptobyte", 9000, 108000, nil, "cryptobyte") }
 
 func TestPropCTX509(t *testing.T) {
-	runGroup(t, "ctx509", 2800, 21600, func(ep *EP) int {
+	runGroup(t, "ctx509", 5600, 64800, func(ep *EP) int {
 		if ep.Name == "ctx509.ParseCertificate" {
 			return 5
 		}
@@ -85,7 +85,7 @@ func TestPropCTX509(t *testing.T) {
 }
 
 func TestPropRevocation(t *testing.T) {
-	runGroup(t, "revocation", 4500, 36000, func(ep *EP) int {
+	runGroup(t, "revocation", 9000, 108000, func(ep *EP) int {
 		if ep.Name == "ocsp.ParseResponse" {
 			return 3
 		}
@@ -96,10 +96,10 @@ func TestPropRevocation(t *testing.T) {
 	}, "ocsp", "revocation")
 }
 
-func TestPropCT(t *testing.T) { runGroup(t, "ct", 2400, 18000, nil, "ct") }
+func TestPropCT(t *testing.T) { runGroup(t, "ct", 4800, 54000, nil, "ct") }
 
 func TestPropTLS(t *testing.T) {
-	runGroup(t, "tls", 5500, 42000, func(ep *EP) int {
+	runGroup(t, "tls", 11000, 126000, func(ep *EP) int {
 		switch ep.Name {
 		case "tls:clientHello", "tls:serverHello":
 			return 5
@@ -110,7 +110,7 @@ func TestPropTLS(t *testing.T) {
 	}, "tls")
 }
 
-func TestPropRSA(t *testing.T) { runGroup(t, "rsa", 1800, 14400, nil, "rsa") }
+func TestPropRSA(t *testing.T) { runGroup(t, "rsa", 3600, 43200, nil, "rsa") }
 
 // ---------------------------------------------------------------------------
 // sanity of the harness material (not part of the property; run by `go test`)
